@@ -566,6 +566,17 @@ def jsonable(spec):
 
 # --------------------------------------------------------------------------- correspondence of one case
 
+def _within(a, b, tol):
+    """elementwise |a-b| <= tol, where equal infinities (overflow of the back transform on both sides) and NaN on
+    both sides count as equal"""
+    a, b = np.asarray(a, dtype=float), np.asarray(b, dtype=float)
+    if a.shape != b.shape:
+        return False
+    with np.errstate(all="ignore"):
+        ok = (np.abs(a - b) <= tol) | (a == b) | (np.isnan(a) & np.isnan(b))
+    return bool(np.all(ok))
+
+
 def correspond_case(ctx, drv, spec, stats, what="all"):
     """implementation internals vs the extracted model on one case.  Returns False when a disagreement
     was recorded.  `stats` collects bit-equality / exclusion counters."""
@@ -672,7 +683,7 @@ def correspond_case(ctx, drv, spec, stats, what="all"):
     stats["final"] = stats.get("final", 0) + 1
     if C.bit_equal(fr_i, f_m):
         stats["final_bit_equal"] = stats.get("final_bit_equal", 0) + 1
-    if fr_i.shape != f_m.shape or not np.all(np.abs(fr_i - f_m) <= 1e-9 * sf + 1e-300):
+    if not _within(fr_i, f_m, 1e-9 * sf + 1e-300):
         bad("raw field", "raw kriging field differs from the model (same inverse matrix)", impl=fr_i, model=f_m, scale=sf)
     f_c, v_c = drv.call("krige_call", *sa, *ta, Ki, *da, chunk)
     f_c, v_c = np.asarray(f_c, dtype=float), np.asarray(v_c, dtype=float)
@@ -683,7 +694,7 @@ def correspond_case(ctx, drv, spec, stats, what="all"):
     tf = np.where(inr, tf, np.inf)
     f_i = np.where(inr, f_i, 0.0)
     f_c = np.where(inr, f_c, 0.0)
-    if f_i.shape != f_c.shape or not np.all(np.abs(f_i - f_c) <= tf):
+    if not _within(f_i, f_c, tf):
         bad("field", "post-processed kriging field differs from the model", impl=f_i, model=f_c, tol=tf)
     # clipping decision: exact.  The model returns max(sill - e, 0) >= 0; an implementation value < 0 is a violation of
     # "the kriging variance is never negative", whatever its size
@@ -697,7 +708,7 @@ def correspond_case(ctx, drv, spec, stats, what="all"):
     f2m = np.asarray(drv.call("krige_call_field", *sa, *ta, Ki, *da, chunk), dtype=float)
     f2 = np.where(inr, f2, 0.0)
     f2m = np.where(inr, f2m, 0.0)
-    if f2.shape != f2m.shape or not np.all(np.abs(f2 - f2m) <= tf):
+    if not _within(f2, f2m, tf):
         bad("field(return_var=False)", "field without variance differs from the model", impl=f2, model=f2m)
     if not C.bit_equal(f2, f_i):
         bad("field(return_var=False) vs field", "the two kernels give different fields", a=f2, b=f_i)
@@ -731,7 +742,7 @@ def correspond_case(ctx, drv, spec, stats, what="all"):
     tfo = post_tol(nz, fo_raw + da[5], 1e-9 * sfo + 1e-300) + 1e-9 * np.abs(fo)
     tfo = np.where(inro, tfo, np.inf)
     fo, fom = np.where(inro, fo, 0.0), np.where(inro, fom, 0.0)
-    if fo.shape != fom.shape or not np.all(np.abs(fo - fom) <= tfo):
+    if not _within(fo, fom, tfo):
         bad("mean_field(only_mean)", "only_mean field differs from the model", impl=fo, model=fom)
     return ok
 
